@@ -42,6 +42,6 @@ mk $D/keep false; mk $D/strip true
 if [ $rk -ne 0 ]; then echo "baseline build failed"; cat $D/keep.log | head; exit 2; fi
 if [ $rs -ne 0 ]; then echo "F2 PRESENT: strip_comments=true makes the build fail where strip_comments=false succeeds:"; grep -m3 -i "panicked\|emitter.rs" $D/strip.log; exit 1; fi
 # both succeeded: outputs must be equal modulo comments
-grep -v '^\s*//' $D/keep/src/a.sv | grep -v '^\s*$' > $D/k.txt; grep -v '^\s*$' $D/strip/src/a.sv > $D/s.txt
+grep -v '^\s*//' $D/keep/src/a.sv | grep -v '^\s*$' > $D/k.txt; grep -v '^\s*//' $D/strip/src/a.sv | grep -v '^\s*$' > $D/s.txt
 if cmp -s $D/k.txt $D/s.txt; then echo "F2 not present: strip_comments only removed comments"; exit 0; fi
 echo "F2 PRESENT: outputs differ beyond comments"; diff $D/k.txt $D/s.txt | head; exit 1
